@@ -428,6 +428,29 @@ func (p *c09) condViaClient(x *res, s c09Str, names map[string]string, values va
 					x.viol("client-accepts-non-sentence", fmt.Sprintf("blank-condition/%s", w.Kind), fmt.Sprintf("[%s] %s (#%d) with the ConditionExpression %q - given, but empty: class %s; an empty text is no condition expression, the request is invalid", adapter, w.Kind, wi, s.s, o.Class), bw)
 				}
 			}
+			// ... and so is a FilterExpression or a ProjectionExpression that is given but empty: not "no filter"
+			for ri, rd := range []adapt.Op{
+				{Kind: adapt.OpScan, Table: spec.Name, Filter: s.s, FilterSet: true},
+				{Kind: adapt.OpQuery, Table: spec.Name, KeyCnd: "h = :c09hq", Values: val.Item{":c09hq": val.Str("k")}, Filter: s.s, FilterSet: true},
+				{Kind: adapt.OpScan, Table: empty.Name, Filter: s.s, FilterSet: true},
+				{Kind: adapt.OpScan, Table: spec.Name, Proj: s.s, ProjSet: true},
+				{Kind: adapt.OpQuery, Table: spec.Name, KeyCnd: "h = :c09hq", Values: val.Item{":c09hq": val.Str("k")}, Proj: s.s, ProjSet: true},
+				{Kind: adapt.OpGet, Table: spec.Name, Key: val.Item{"h": val.Str("k")}, Proj: s.s, ProjSet: true},
+			} {
+				o := cl.Do(rd)
+				x.r.Evals++
+				x.r.Counters["blank_filters_and_projections_sent"]++
+				what := "FilterExpression"
+				if rd.ProjSet {
+					what = "ProjectionExpression"
+				}
+				bw := map[string]interface{}{"adapter": adapter, "expression": s.s, "read": rd, "outcome": o}
+				if o.Class == adapt.ClsRuntime {
+					x.viol("client-runtime-panic", o.Site, fmt.Sprintf("[%s] %s with the blank %s %q: runtime panic at %s: %s", adapter, rd.Kind, what, s.s, o.Site, o.Msg), bw)
+				} else if o.Class == adapt.ClsOK {
+					x.viol("client-accepts-non-sentence", fmt.Sprintf("blank-%s/%s", what, rd.Kind), fmt.Sprintf("[%s] %s (#%d) with the %s %q - given, but empty: class %s; an empty text is no expression, the request is invalid", adapter, rd.Kind, ri, what, s.s, o.Class), bw)
+				}
+			}
 			if g := cl.Do(adapt.Op{Kind: adapt.OpGet, Table: spec.Name, Key: val.Item{"h": val.Str("k")}}); !val.ItemsEqual(g.Item, before.Item) {
 				x.viol("rejected-request-changed-item", "blank-condition", fmt.Sprintf("[%s] writes with the blank ConditionExpression %q changed the stored item to %s", adapter, s.s, g.Item.Canon()), nil)
 			}
